@@ -238,6 +238,70 @@ example :
   · intro m hm
     rcases hbelow m hm with rfl | rfl | rfl | rfl <;> decide
 
+/-- **C02 (real-time forwarding: the order of arrival does not matter).** While the link is up every write accepted on one
+side is forwarded to the other (`c02_loop_forward_iff_connected`), where it is applied by the same store request as a
+local write. Take one node (or one edge): let `arrA` be the batches in the order, grouping and multiplicity in which they
+reached the store of A — its own writes interleaved with the forwarded ones, duplicates and re-deliveries included — and
+`arrB` the same for B. If every point that reached one side also reached the other (`hsame`), the two stores hold
+exactly the same rows for that node, and each row is the newest point delivered for its identity — whatever the
+interleaving on either side. (This is C01's order-independence read for two instances; the premise "also reached the
+other" is what forwarding plus the catch-up pass after an outage provide, and is not proved here for the NATS layer.) -/
+theorem c02_forwarding_order_irrelevant (arrA arrB : List (List Point))
+    (hsame : ∀ p, p ∈ delivered arrA ↔ p ∈ delivered arrB) (hadm : Admissible (delivered arrA)) :
+    (∀ p, p ∈ rowsAfter [] arrA ↔ p ∈ rowsAfter [] arrB) ∧ ∀ p, p ∈ rowsAfter [] arrA ↔ Newest (delivered arrA) p := by
+  have h0 : LWW ([] : List Point) [] := ⟨by simp [IdUnique], by simp, by simp⟩
+  have key : ∀ (bs : List (List Point)), Admissible (delivered bs) → ∀ p, p ∈ rowsAfter [] bs ↔ Newest (delivered bs) p := by
+    intro bs hadm p
+    have h := rowsAfter_lww bs [] [] h0
+    simp only [List.nil_append] at h
+    constructor
+    · exact h.newest p
+    · intro hN
+      obtain ⟨r, hr, hrs⟩ := h.cover p hN.1
+      have hrN := h.newest r hr
+      have h1 := hN.2 r hrN.1 hrs
+      have h2 := hrN.2 p hN.1 (by rw [sameId_symm]; exact hrs)
+      have : r = p := hadm r hrN.1 p hN.1 hrs (by omega)
+      rw [← this]; exact hr
+  have hadm' : Admissible (delivered arrB) := by
+    intro a ha b hb
+    exact hadm a ((hsame a).mpr ha) b ((hsame b).mpr hb)
+  refine ⟨fun p => ?_, key arrA hadm⟩
+  rw [key arrA hadm, key arrB hadm']
+  unfold Newest
+  constructor
+  · rintro ⟨h1, h2⟩; exact ⟨(hsame p).mp h1, fun q hq => h2 q ((hsame q).mpr hq)⟩
+  · rintro ⟨h1, h2⟩; exact ⟨(hsame p).mpr h1, fun q hq => h2 q ((hsame q).mp hq)⟩
+
+/-- non-vacuity: two writes of one identity and one of another, arriving one by one on A, in the other order and in one
+    batch — with a re-delivery — on B -/
+example :
+    let p1 : Point := { type := [1], key := zeroKey, time := 5, value := 1 }
+    let p2 : Point := { type := [1], key := zeroKey, time := 7, value := 2 }
+    let q : Point := { type := [2], key := zeroKey, time := 6, value := 3 }
+    (∀ p, p ∈ delivered [[p1], [q], [p2]] ↔ p ∈ delivered [[p2, q, p1], [p1]]) ∧ Admissible (delivered [[p1], [q], [p2]]) := by
+  intro p1 p2 q
+  constructor
+  · intro p
+    have e1 : delivered [[p1], [q], [p2]] = [p1, q, p2] := by decide
+    have e2 : delivered [[p2, q, p1], [p1]] = [p2, q, p1, p1] := by decide
+    rw [e1, e2]
+    simp only [List.mem_cons, List.not_mem_nil, or_false]
+    constructor
+    · rintro (h | h | h)
+      · exact Or.inr (Or.inr (Or.inl h))
+      · exact Or.inr (Or.inl h)
+      · exact Or.inl h
+    · rintro (h | h | h | h)
+      · exact Or.inr (Or.inr h)
+      · exact Or.inr (Or.inl h)
+      · exact Or.inl h
+      · exact Or.inl h
+  · have e1 : delivered [[p1], [q], [p2]] = [p1, q, p2] := by decide
+    rw [e1]
+    unfold Admissible
+    decide
+
 /-- **C02 (the "stored rows" premises hold on every store).** The convergence theorems above take as premises that the
 rows of the two stores are stored rows (`StoredRows`: key never empty, value neither -0 nor NaN), one row per identity
 (`IdUnique`), and that the node type is never an edge row. These are not assumptions about the instances: from the empty
